@@ -246,7 +246,7 @@ func (idx *timeSeriesIndex) Load(
 	defer idx.lock.RUnlock()
 
 	highContainerIdx := idx.ids.Keys().GetContainerIndex(seriesIDHighKey)
-	if highContainerIdx == -1 {
+	if highContainerIdx < 0 {
 		// not found
 		return
 	}
